@@ -438,8 +438,15 @@ impl Formatter {
 
     if self.html {
       format!("<h{} id=\"{}\" {} class=\"mech-program-subtitle {}\"><a class=\"mech-program-subtitle-link {}\" href=\"#{}\">{}</a></h{}>", level, title_id, section, toc, toc, link_id, node.to_string(), level)
+    } else if level == 2 {
+      let text = self.inline_paragraph(&node.text);
+      format!("{}. {}\n-------------------------------------------------------------------------------\n",self.h2_num,text)
     } else {
-      format!("{}\n-------------------------------------------------------------------------------\n",node.to_string())
+      let nums = [self.h2_num,self.h3_num,self.h4_num,self.h5_num,self.h6_num];
+      let depth = (level as usize).saturating_sub(1).clamp(2,5);
+      let label = nums[..depth].iter().map(|n| n.to_string()).collect::<Vec<String>>().join(".");
+      let text = self.inline_paragraph(&node.text);
+      format!("({}) {}\n",label,text)
     }
   }
 
